@@ -20,7 +20,7 @@ var pxSelftestGroup = &pxGroup{name: "pure-selftest-ext", ns: "SelftestExt", tar
 	{pkg: "pureselftest", file: "ext.go", fn: "XSlice"}, {pkg: "pureselftest", file: "ext.go", fn: "XTo"},
 	{pkg: "pureselftest", file: "ext.go", fn: "XReslice"}, {pkg: "pureselftest", file: "ext.go", fn: "XBE"},
 	{pkg: "pureselftest", file: "ext.go", fn: "XWrap16"}, {pkg: "pureselftest", file: "ext.go", fn: "XIdxU"},
-	{pkg: "pureselftest", file: "ext.go", fn: "XConv"}, {pkg: "pureselftest", file: "ext.go", fn: "XArith"},
+	{pkg: "pureselftest", file: "ext.go", fn: "XConv"}, {pkg: "pureselftest", file: "ext.go", fn: "XConvU"}, {pkg: "pureselftest", file: "ext.go", fn: "XArith"},
 	{pkg: "pureselftest", file: "ext.go", fn: "XMap"}, {pkg: "pureselftest", file: "ext.go", fn: "XWalk"},
 	{pkg: "pureselftest", file: "ext.go", fn: "XTwo"}, {pkg: "pureselftest", file: "ext.go", fn: "XJoin"},
 	{pkg: "pureselftest", file: "ext.go", fn: "XTop"},
@@ -57,7 +57,9 @@ type pxCase struct {
 
 func pxSelftestCases() []pxCase {
 	var cs []pxCase
-	add := func(fn, args string, run func() string) { cs = append(cs, pxCase{fn: fn, args: args, fuel: -1, run: run}) }
+	add := func(fn, args string, run func() string) {
+		cs = append(cs, pxCase{fn: fn, args: args, fuel: -1, run: run})
+	}
 	type in struct {
 		buf []byte
 		n   int
@@ -121,9 +123,12 @@ func pxSelftestCases() []pxCase {
 	}{{0, 0, 0, 0}, {255, 65535, 0xffffffff, 0xffffffffffffffff}, {200, 0x1234, 0x89abcdef, 0x1ff}, {1, 0x8001, 0x10000, 256}} {
 		t := t
 		add("XConv", puU(uint64(t.a), "UInt8")+" "+puU(uint64(t.b), "UInt16")+" "+puU(uint64(t.c), "UInt32")+" "+puU(t.d, "UInt64"), func() string {
-			a, b, c, d, e, f, g, h := st.XConv(t.a, t.b, t.c, t.d)
-			return "(" + puI(a) + ", " + puI(b) + ", " + puI(c) + ", " + puU(uint64(d), "UInt8") + ", " + puU(uint64(e), "UInt16") + ", " +
-				puU(uint64(f), "UInt32") + ", " + puU(g, "UInt64") + ", " + puU(uint64(h), "UInt8") + ")"
+			a, b, c, d := st.XConv(t.a, t.b, t.c, t.d)
+			return "(" + puI(a) + ", " + puI(b) + ", " + puI(c) + ", " + puU(uint64(d), "UInt8") + ")"
+		})
+		add("XConvU", puU(uint64(t.a), "UInt8")+" "+puU(uint64(t.b), "UInt16")+" "+puU(uint64(t.c), "UInt32"), func() string {
+			e, f, g, h := st.XConvU(t.a, t.b, t.c)
+			return "(" + puU(uint64(e), "UInt16") + ", " + puU(uint64(f), "UInt32") + ", " + puU(g, "UInt64") + ", " + puU(uint64(h), "UInt8") + ")"
 		})
 	}
 	for _, t := range []struct {
